@@ -11,7 +11,6 @@ from vf import build, recs, tlc
 
 # short class codes printed by the judges -> signature keys of the defect classes found on the pinned tree
 CODES = {
-    "VLREQ0": "valuelist:REQ-base:unlisted-zero-shown-as-null",
     "DAYLOFF": "DAY:low-byte-ff",
     "DAY1900": "DAY:pre-1900-03-01",
     "MINLOFF": "MIN:low-byte-ff",
